@@ -61,10 +61,13 @@ type recoverer struct {
 // error if the recoverer is already running
 func (m *recoverer) Start(ctx context.Context) error {
 	if m.running.Load() {
+		verifPoint("start.running", m, m.service)
 		return ErrServiceAlreadyStarted
 	}
+	verifPoint("start.idle", m, m.service)
 
 	go m.recoverableStart(ctx)
+	verifPoint("start.spawned", m)
 
 	m.serviceStart(ctx)
 
@@ -75,10 +78,13 @@ func (m *recoverer) Start(ctx context.Context) error {
 // if the recoverer is already stopped
 func (m *recoverer) Close() error {
 	if !m.running.Load() {
+		verifPoint("close.notrunning", m)
 		return ErrServiceNotRunning
 	}
+	verifPoint("close.running", m)
 
 	err := m.service.Close()
+	verifPoint("close.svc", m, err)
 
 	// the stop signal must not be lost: the channel holds one message and the
 	// service goroutine may just have put its own result there (Start returns
@@ -87,37 +93,47 @@ func (m *recoverer) Close() error {
 	for {
 		select {
 		case m.stopped <- errServiceContextCancelled:
+			verifPoint("close.sent", m)
 			return err
 		default:
+			verifPoint("close.full", m)
 		}
 
 		select {
 		case <-m.stopped:
+			verifPoint("close.drained", m)
 		default:
+			verifPoint("close.empty", m)
 		}
 	}
 }
 
 func (m *recoverer) serviceStart(ctx context.Context) {
 	m.running.Store(true)
+	verifPoint("ss.stored", m)
 
 	for {
 		select {
 		case err := <-m.stopped:
+			verifPoint("ss.recv", m, err)
 			// restart the service
 			if err != nil {
 				if errors.Is(err, errServiceStopped) {
 					<-time.After(m.coolDown)
+					verifPoint("ss.cooled", m)
 					go m.recoverableStart(ctx)
+					verifPoint("ss.respawned", m)
 				}
 
 				if errors.Is(err, errServiceContextCancelled) {
 					m.running.Store(false)
+					verifPoint("ss.cleared", m)
 					return
 				}
 			}
 		case <-ctx.Done():
 			m.running.Store(false)
+			verifPoint("ss.ctxdone", m)
 			return
 		}
 	}
@@ -127,21 +143,26 @@ func (m *recoverer) recoverableStart(ctx context.Context) {
 	func(s Recoverable, l *log.Logger, chStop chan error, ctx context.Context) {
 		defer func() {
 			if err := recover(); err != nil {
+				verifPoint("rs.recovered", m)
 				if l != nil {
 					l.Println(err)
 					l.Println(string(debug.Stack()))
 				}
 
 				chStop <- errServiceStopped
+				verifPoint("rs.sent", m, errServiceStopped)
 			}
 		}()
 
+		verifPoint("rs.enter", m)
 		err := s.Start(ctx)
+		verifPoint("rs.returned", m, err)
 
 		if l != nil && err != nil {
 			l.Println(err)
 		}
 
 		chStop <- err
+		verifPoint("rs.sent", m, err)
 	}(m.service, m.log, m.stopped, ctx)
 }
